@@ -34,7 +34,7 @@ NT_FEATURES = {'multi_consumer', 'repeated_operand', 'exported_and_consumed',
 def model_kw(tier):
   return dict(max_nodes=12 if tier == 'thorough' else 8, max_subgraphs=3,
               reuse_const=True, share_buffers=True, dedup=True,
-              collide_names=True)
+              collide_names=True, unused_results=True)
 
 
 def check_case(case):
